@@ -30,7 +30,8 @@ let rec uniq = function [] -> [] | x :: l -> x :: uniq (List.filter (fun y -> y 
 let handle case obs =
   match case with
   | "tl" :: _ ->
-    if obs = ["TIMEOUT"] then (["-"], ["terminates"]) else begin
+    if obs = ["TIMEOUT"] then (["-"], ["terminates"])
+    else if List.mem "PANIC" obs then (["-"], ["no_panic"]) else begin
       let evs = List.map event_of_tok obs in
       let sids = uniq (List.concat_map (function Model.ECall i -> [i] | Model.ECancel i -> [i] | _ -> []) evs) in
       let cids = uniq (List.concat_map (function Model.ECloseCall (k, _) -> [k] | _ -> []) evs) in
@@ -49,5 +50,6 @@ let handle case obs =
           let failed = names (Model.failed (Model.c10_api_checks r (bool_of_tok ret) (bool_of_tok chg))) in
           ([tok_of_bool (Model.api_predict_returns r); chg], failed)
         | _ -> (["-"], ["malformed_observation"])))
+  | ["apienv"] -> (["OK"], [])
   | _ -> failwith "unknown case"
 let () = Driverlib.run handle
